@@ -5,6 +5,7 @@ package main
 import (
 	"fmt"
 	"go/types"
+	"sort"
 	"strings"
 
 	"golang.org/x/tools/go/ssa"
@@ -152,6 +153,17 @@ func (f *Frame) staticCall(bi *BInfo, fn *ssa.Function, cl *closureVal, args []T
 	if res, ok := f.atomicCall(bi, fn, args, argVals); ok {
 		return res
 	}
+	if g.strTheory {
+		var clean []T
+		for _, a := range args {
+			if a.S != "" {
+				clean = append(clean, a)
+			}
+		}
+		if r, ok := g.stringExtern(fn.String(), clean); ok {
+			return []T{r}
+		}
+	}
 	if fo, ok := fn.Object().(*types.Func); ok && g.cs.Pure[funcKey(fo)] {
 		var clean []T
 		for _, a := range args {
@@ -167,7 +179,9 @@ func (f *Frame) staticCall(bi *BInfo, fn *ssa.Function, cl *closureVal, args []T
 		fc = g.cs.Funcs[contractKeyOf(fn.Origin())]
 	}
 	if fc != nil && !fc.Inline {
-		return f.applyContract(bi, fn, fc, args, argVals, cl)
+		res := f.applyContract(bi, fn, fc, args, argVals, cl)
+		f.havocClosureArgs(bi, argVals)
+		return res
 	}
 	if fn.Parent() != nil && fn.Blocks != nil {
 		// anonymous function called directly
@@ -194,6 +208,7 @@ func (f *Frame) staticCall(bi *BInfo, fn *ssa.Function, cl *closureVal, args []T
 	// external function without contract: A-ext
 	g.assumeNote("A-ext: external functions without a trusted contract return unconstrained values and change the modelled heap only through pointers and slices passed to them directly")
 	f.havocArgs(bi, args, argVals)
+	f.havocClosureArgs(bi, argVals)
 	res := f.freshResults(sig)
 	f.externFacts(bi, fn, args, res)
 	return res
@@ -513,4 +528,75 @@ func loopFree(fn *ssa.Function) bool {
 		}
 	}
 	return true
+}
+
+// stringExtern: standard-library string functions under `opt theory=strings` (SMT-LIB strings).
+// Assumption (listed): the strings involved are ASCII, so byte and code-point indices coincide.
+func (g *Gen) stringExtern(name string, a []T) (T, bool) {
+	str := types.Typ[types.String]
+	switch name {
+	case "strings.Index":
+		g.assumeNote("theory strings: byte indices = code-point indices (ASCII strings)")
+		return intT(app("str.indexof", a[0].S, a[1].S, "0")), true
+	case "strings.IndexRune", "strings.IndexByte":
+		g.assumeNote("theory strings: byte indices = code-point indices (ASCII strings)")
+		return intT(app("str.indexof", a[0].S, app("str.from_code", a[1].S), "0")), true
+	case "strings.HasPrefix":
+		return boolT(app("str.prefixof", a[1].S, a[0].S)), true
+	case "strings.HasSuffix":
+		return boolT(app("str.suffixof", a[1].S, a[0].S)), true
+	case "strings.Contains":
+		return boolT(app("str.contains", a[0].S, a[1].S)), true
+	case "strings.TrimPrefix":
+		return mk(sIte(app("str.prefixof", a[1].S, a[0].S), app("str.substr", a[0].S, app("str.len", a[1].S), app("str.len", a[0].S)), a[0].S), "Str", str), true
+	}
+	return T{}, false
+}
+
+// havocClosureArgs: a callee that is not inlined may call the closures passed to it, any number
+// of times. Everything such a closure may change is havocked (found by a dry run of its body).
+func (f *Frame) havocClosureArgs(bi *BInfo, argVals []ssa.Value) {
+	g := f.g
+	for _, av := range argVals {
+		if av == nil {
+			continue
+		}
+		cl := f.findClosure(av)
+		if cl == nil || cl.fn.Blocks == nil || f.depth >= g.maxInline || f.inChain(cl.fn) {
+			continue
+		}
+		// dry run of the closure body from the current state with unconstrained arguments
+		snap := g.snapshot()
+		saveSpec := f.specMode
+		f.specMode = true
+		before := bi.out.clone()
+		sub := &BInfo{R: bi.R, in: bi.out, out: bi.out.clone()}
+		var cargs []T
+		var cvals []ssa.Value
+		for _, p := range cl.fn.Params {
+			cargs = append(cargs, mk(g.freshConst("cbarg", g.sortOf(p.Type())), g.sortOf(p.Type()), p.Type()))
+			cvals = append(cvals, nil)
+		}
+		f.inlineCall(sub, cl.fn, cl, cargs, cvals)
+		var changed []string
+		all := sub.out.epoch != before.epoch
+		for name, es := range g.arrReg {
+			if g.arr(sub.out, name, es) != g.arr(before, name, es) {
+				changed = append(changed, name)
+			}
+		}
+		f.specMode = saveSpec
+		g.restore(snap)
+		if all {
+			f.havocAll(bi)
+			continue
+		}
+		sort.Strings(changed)
+		for _, name := range changed {
+			g.havocArr(bi.out, name, "closure-arg")
+		}
+		if len(changed) > 0 {
+			g.assumeNote("A-closure-arg: a callee may run the closures passed to it; everything such a closure can change is havocked after the call")
+		}
+	}
 }
